@@ -16,6 +16,8 @@ Next ==
   /\ l <= Len(Trace)
   /\ LET e == Trace[l] IN
      CASE e.ev = "reset" -> m' = << >>
+       \* several writers of one key at the same time: no Set fails, the key holds one of the values in full
+       [] e.ev = "conc" -> /\ Report("MapRule", e.errs = 0 /\ e.final = "one") /\ m' = m
        [] e.op \in {"Set", "SaveEntity"} -> /\ Report("MapRule", e.ret = "ok") /\ m' = Put(e.k, e.v)
        [] e.op \in {"Get", "EntityWithName"} ->
             /\ Report("MapRule", e.ret = (IF Has(e.k) THEN m[e.k] ELSE "notfound")) /\ m' = m
